@@ -118,6 +118,18 @@ theorem slice_allDig {r : Nat} {s : List Nat} {i j L : Nat} (h : DigRange r s i 
     rw [hn] at hy; cases hy; exact hd
   · cases hn
 
+theorem slice_allDS {k : Comp} {s : List Nat} {i j L : Nat} (h : DSRange c k s i j) (hL : L ≤ j - i) :
+    ∀ x ∈ (s.drop i).take L, DSk c k x := by
+  intro x hx
+  obtain ⟨n, hn⟩ := List.mem_iff_getElem?.mp hx
+  rw [List.getElem?_take] at hn
+  split at hn
+  · next hlt =>
+    rw [List.getElem?_drop] at hn
+    obtain ⟨y, hy, hd⟩ := h (i + n) (by omega) (by omega)
+    rw [hn] at hy; cases hy; exact hd
+  · cases hn
+
 /-! ## integer phase -/
 
 structure IntOk (c : Cfg) (b : Bytes) (ip : IntPart) : Prop where
@@ -127,13 +139,13 @@ structure IntOk (c : Cfg) (b : Bytes) (ip : IntPart) : Prop where
   nbc : c.bytesContiguous = true → ip.nDigits = ip.byte.index - ip.start.index
   digits : ∃ L, L ≤ ip.byte.index - ip.start.index ∧ (c.bytesContiguous = true → L = ip.nDigits) ∧
     ip.integerDigits = (b.slc.drop ip.start.index).take L
-  range : DigRange c.mantissaRadix b.slc ip.start.index ip.byte.index
+  range : DSRange c .integer b.slc ip.start.index ip.byte.index
 
-theorem IntOk.allDig {b : Bytes} {ip : IntPart} (h : IntOk c b ip) : ∀ x ∈ ip.integerDigits, IsDig c.mantissaRadix x := by
+theorem IntOk.allDS {b : Bytes} {ip : IntPart} (h : IntOk c b ip) : ∀ x ∈ ip.integerDigits, DSk c .integer x := by
   obtain ⟨L, hL, _, hd⟩ := h.digits
-  rw [hd]; exact slice_allDig h.range hL
+  rw [hd]; exact slice_allDS h.range hL
 
-theorem integerPhase_safe (cx : Ctx c) (hi : PeekTriv c .integer) (b : Bytes) (hb : Bytes.Valid b) :
+theorem integerPhase_safe (cx : Ctx c) (hi : Good c .integer) (b : Bytes) (hb : Bytes.Valid b) :
     Safe (integerPhase c b) (IntOk c b) := by
   unfold integerPhase
   refine Safe.bind (prefixPhase_safe cx b hb) ?_
@@ -145,16 +157,16 @@ theorem integerPhase_safe (cx : Ctx c) (hi : PeekTriv c .integer) (b : Bytes) (h
   have hadv1 : Adv start b1 := hadv1
   have hd1 : DigRange c.mantissaRadix start.slc start.index b1.index := hd1
   simp only
-  refine Safe.bind (parseDigits_safe cx .integer c.mantissaRadix cx.sepNotDigM b1 hadv1.valid') ?_
+  refine Safe.bind (parseDigits_ds cx .integer hi b1 hadv1.valid') ?_
   rintro ⟨ds, b2⟩ ⟨hadv2, hd2⟩
   have hadv2 : Adv b1 b2 := hadv2
-  have hd2 : DigRange c.mantissaRadix b1.slc b1.index b2.index := hd2 hi
+  have hd2 : DSRange c .integer b1.slc b1.index b2.index := hd2
   simp only
   have hadv12 := hadv1.trans hadv2
-  have hrange : DigRange c.mantissaRadix b.slc start.index b2.index := by
+  have hrange : DSRange c .integer b.slc start.index b2.index := by
     rw [← hadv0.slc]
     rw [hadv1.slc] at hd2
-    exact hd1.trans hd2
+    exact hd1.toDS.trans hd2
   have hN1 := count_le (c := c) hadv12
   have hN2 : c.bytesContiguous = true → b2.currentCount c - start.currentCount c = b2.index - start.index := by
     intro h; rw [currentCount_bc h, currentCount_bc h]
@@ -178,9 +190,9 @@ theorem integerPhase_safe (cx : Ctx c) (hi : PeekTriv c .integer) (b : Bytes) (h
 structure FracOk (c : Cfg) (byte : Bytes) (fp : FracPart) : Prop where
   adv : Adv byte fp.byte
   noFrac : fp.fraction = none → fp.nAfterDot = 0
-  digits : ∀ fd, fp.fraction = some fd → ∀ x ∈ fd, IsDig c.mantissaRadix x
+  digits : ∀ fd, fp.fraction = some fd → ∀ x ∈ fd, DSk c .fraction x
 
-theorem fractionPhase_safe (cx : Ctx c) (hf : PeekTriv c .fraction) (o : POpts)
+theorem fractionPhase_safe (cx : Ctx c) (hf : Good c .fraction) (o : POpts)
     (hdp : c.bytesContiguous = true ∨ o.dp ≠ c.fmt.digitSeparator) (byte : Bytes) (m : Nat) (hb : Bytes.Valid byte) :
     Safe (fractionPhase c o byte m) (FracOk c byte) := by
   unfold fractionPhase
@@ -199,15 +211,15 @@ theorem fractionPhase_safe (cx : Ctx c) (hf : PeekTriv c .fraction) (o : POpts)
     have hadv1 : Adv { byte with index := byte.index + 1 } b1 := hadv1
     have hd1 : DigRange c.mantissaRadix byte.slc (byte.index + 1) b1.index := hd1
     simp only
-    refine Safe.bind (parseDigits_safe cx .fraction c.mantissaRadix cx.sepNotDigM b1 hadv1.valid') ?_
+    refine Safe.bind (parseDigits_ds cx .fraction hf b1 hadv1.valid') ?_
     rintro ⟨ds, b2⟩ ⟨hadv2, hd2⟩
     have hadv2 : Adv b1 b2 := hadv2
-    have hd2 : DigRange c.mantissaRadix b1.slc b1.index b2.index := hd2 hf
+    have hd2 : DSRange c .fraction b1.slc b1.index b2.index := hd2
     simp only
     have hadv12 := hadv1.trans hadv2
-    have hrange : DigRange c.mantissaRadix byte.slc (byte.index + 1) b2.index := by
+    have hrange : DSRange c .fraction byte.slc (byte.index + 1) b2.index := by
       rw [hadv1.slc] at hd2
-      exact hd1.trans hd2
+      exact hd1.toDS.trans hd2
     have hN1 := count_le (c := c) hadv12
     generalize b2.currentCount c - Bytes.currentCount c { byte with index := byte.index + 1 } = N at hN1 ⊢
     have hv2 : b2.index ≤ byte.slc.length := hadv12.valid
@@ -223,7 +235,7 @@ theorem fractionPhase_safe (cx : Ctx c) (hf : PeekTriv c .fraction) (o : POpts)
       intro fd hfd
       simp only [Option.some.injEq] at hfd
       subst hfd
-      exact slice_allDig hrange (by split <;> omega)
+      exact slice_allDS hrange (by split <;> omega)
   · exact ⟨adv_refl hb, fun _ => rfl, by simp⟩
 
 /-! ## exponent and suffix -/
